@@ -143,6 +143,13 @@ impl<T: Node + ?Sized + 'static> ShapeDyn for ShapeOf<T> {
         for o in ops {
             outs.push(x.apply(&o.path, &o.op));
         }
+        // never walk a value whose own bytes no longer validate (accessors would be UB): report that instead
+        if T::validate(x.as_bytes()).is_err() {
+            let mut o = Observation::default();
+            o.revalidate_ok = false;
+            o.walk.problems.push("the value's bytes do not validate after the call; accessors not exercised".into());
+            return Ok((outs, o));
+        }
         Ok((outs, observe(&*x)))
     }
     fn same_content(&self, a: &[u8], b: &[u8]) -> Result<bool, Error> {
